@@ -30,12 +30,17 @@ type Case struct {
 
 // finalAlign folds Align and the property history into the alignment each column ends up with; with a table, it
 // performs them on it as well.
-func finalAlign(c Case, n int, t tabular.Table) []int {
+func finalAlign(c Case, n int, t tabular.Table, base map[int]int) []int {
 	al := make([]int, n+1)
+	for i := range al {
+		al[i] = base[i] // what property steps in between the build steps left behind
+	}
 	for i := 0; i <= n && i < len(c.Align); i++ {
-		al[i] = c.Align[i]
-		if v := tc.AlignValue(c.Align[i]); v != nil && t != nil {
-			t.Column(i).SetProperty(align.PropertyType, v)
+		if v := tc.AlignValue(c.Align[i]); v != nil {
+			al[i] = c.Align[i]
+			if t != nil {
+				t.Column(i).SetProperty(align.PropertyType, v)
+			}
 		}
 	}
 	gen.ApplyProps(t, c.Props, n, al, nil)
@@ -94,12 +99,15 @@ func CheckCase(c Case) *ev.Violation {
 	}
 	n := m.NCols()
 	if n != m.MaxEver {
-		return nil
-	}
-	if t.NColumns() != n {
+		// a replaced, narrower header (or the like): which column count is "right" is C02's business; here the
+		// statement speaks of the columns the table has, so its own count is taken (it must cover what is there)
+		if n = t.NColumns(); n < m.NCols() {
+			return nil
+		}
+	} else if t.NColumns() != n {
 		return ev.V("NColumns()=%d but the build history has %d columns", t.NColumns(), n)
 	}
-	al := finalAlign(c, n, t)
+	al := finalAlign(c, n, t, m.AlignCode)
 	gen.ScrambleRowsCopy(t) // the caller may do what it likes with the copy it was handed
 	w := early
 	if w == nil {
@@ -263,7 +271,7 @@ func Classify(c Case) (bool, interface{}, []string) {
 	if m.Mutated {
 		add("item-mutated-and-updated")
 	}
-	al := finalAlign(c, n, nil)
+	al := finalAlign(c, n, nil, m.AlignCode)
 	for i := 1; i <= n; i++ {
 		own := al[i]
 		if own == 0 && al[0] != 0 {
